@@ -74,6 +74,23 @@ func testGetPut(t *testing.T, newBackend NewBackend) {
 	if err != api.ErrExist {
 		t.Errorf("Put() for new entry (again): %v", err)
 	}
+
+	err = b.Remove("missing")
+	if err != api.ErrNotExist {
+		t.Errorf("Remove() for missing entry: %v", err)
+	}
+	err = b.Remove("new")
+	if err != nil {
+		t.Errorf("Remove() for existing entry: %v", err)
+	}
+	_, err = b.Get("new")
+	if err != api.ErrNotExist {
+		t.Errorf("Get() for removed entry: %v", err)
+	}
+	err = b.Put("new", []byte("another data"))
+	if err != nil {
+		t.Errorf("Put() for removed entry: %v", err)
+	}
 }
 
 func testSeparators(t *testing.T, newBackend NewBackend) {
